@@ -226,6 +226,11 @@ def make_job(tape):
         g = fd.FDGen(tape, req_range=(2, 5), param_max=1)
         prog = g.program()
         src = fd.render(prog) + "param zz = Range(0, 1)\n"
+        if "obj1 = new Object" in src and tape.chance(1, 2, "random_allowCollisions?"):
+            # whether an overlap matters is itself random: the optional (time-weighted) blanket
+            # collision check and the mandatory pairwise checks must agree about it, or the
+            # outcome depends on which of them the checker happens to run first
+            src = src.replace("obj1 = new Object at", "obj1 = new Object with allowCollisions Uniform(True, False), at", 1)
         if tape.chance(1, 2, "dependent_defaults?"):
             # a property default that depends on several random properties of the same
             # object: the order in which specifier resolution visits them must be fixed
